@@ -69,6 +69,10 @@ def check(run, prog, tier):
                         "operator it was given (its basis, its diagonalisation) comes before the first change of the manager's "
                         "bookkeeping - `with` does not call __exit__ when __enter__ raises", minimum=2)
     rule_B15(run, prog)
+    run.rule("C04-B16", "a question put to a basis-managed object inside a context is answered for the basis of the context: methods "
+                        "that return a value and change nothing read the managed property, not the raw storage (which may still "
+                        "be in the basis the object was last read in)", minimum=2)
+    rule_B16(run, prog)
     run.rule("C04-B12", "arithmetic between basis-managed objects reads the other operand through its managed property", minimum=2)
     rule_B12(run, prog)
     run.rule("C04-B11", "a managed object created inside a method from the data of self owns its array (objects created inside a "
@@ -111,6 +115,52 @@ def _is_toplevel_stmt_containing(func, pred):
 
 def _attr_call(n, attr_chain_suffix):
     return isinstance(n, ast.Call) and (dotted(n.func) or "").endswith(attr_chain_suffix)
+
+
+B16_ACCEPTED = {
+    "SelfAdjointOperator.get_diagonalization_matrix":
+        "called by eigenbasis_of.__enter__ right after the operator was brought to the current basis (C04-B15 orders the two)",
+    "TransitionDipoleMoment.check_selfadjoint":
+        "self-adjointness does not depend on the (unitary) representation the storage is in",
+}
+
+
+def rule_B16(run, prog):
+    """'... every observable read inside the context refers to the basis of the context': the change of basis of an object
+    is carried out when its managed property is read.  A method that only answers a question (no store to self, returns a
+    value) and looks at `self._data` before any read of `self.data` answers for whatever basis the storage was left in."""
+    from .. import memo
+    rid = "C04-B16"
+    n = 0
+    for cls in prog.all_classes():
+        if ".tests." in cls.module.name or ".wizard." in cls.module.name or not prog.is_subclass(cls, "BasisManaged"):
+            continue
+        mb = memo.basis_managed_attributes(prog, cls)
+        if not mb:
+            continue
+        for nme, f in cls.methods.items():
+            if not isinstance(f.node, ast.FunctionDef) or nme.startswith("_") or nme == "transform":
+                continue
+            if memo.attrs_written(f.node):
+                continue                       # changes the object: not a question
+            if not any(isinstance(x, ast.Return) and x.value is not None for x in walk_no_nested(f.node)):
+                continue
+            raw = [x for x in walk_no_nested(f.node) if isinstance(x, ast.Attribute) and norm(x.value) == "self"
+                   and x.attr.startswith("_") and x.attr[1:] in mb and isinstance(x.ctx, ast.Load)]
+            if not raw:
+                continue
+            n += 1
+            prog.consulted.add(f.relpath)
+            managed_first = any(isinstance(x, ast.Attribute) and norm(x.value) == "self" and x.attr in mb
+                                and x.lineno <= raw[0].lineno for x in walk_no_nested(f.node))
+            ok = managed_first or f.short in B16_ACCEPTED
+            run.obligation(rid, f.short, ok, key="managed-read",
+                           message="%s answers from `self.%s` without reading the managed property first: inside a basis context "
+                                   "the storage may still be in the basis the object was last read in, and the answer is the one for "
+                                   "that basis" % (f.short, raw[0].attr), loc=f.loc(raw[0]),
+                           sample={"accepted": B16_ACCEPTED.get(f.short)})
+    if n < 2:
+        raise AnalysisError("C04-B16: only %d value-returning methods that read raw managed storage found" % n)
 
 
 def rule_B15(run, prog):
